@@ -450,7 +450,11 @@ func runTamper(e *core.Env) {
 			p.ReqPfx = 66000
 		}
 		rec.Begin("tamper", i, fmt.Sprintf("%+v", p))
-		sessionTrials(e, i, r, &p)
+		// in a synctest bubble: the recorded handshake is presented many times, and the clock its timestamp is held
+		// against must not move while that takes however long a loaded machine needs
+		if dead := core.Bubble(e, func() { sessionTrials(e, i, r, &p) }); dead != "" {
+			rec.Inconclusive("bubble:" + dead)
+		}
 	})
 	// long sessions: whole chunks displaced by 64..256 chunks (thorough: one pair of sessions with 33000 chunks, 32768)
 	nLong := e.N(4, 16)
@@ -463,7 +467,11 @@ func runTamper(e *core.Env) {
 		}
 		p := sessParams{KeySize: []int{16, 32}[j%2], Users: r.Pick(0, 2), Seg: r.Bool(), Payload: r.Pick(0, 17), NC: n, NS: n, BigReadBuf: r.Bool(), Long: true}
 		rec.Begin("tamper", i, fmt.Sprintf("%+v", p))
-		sessionTrials(e, i, r, &p)
+		// in a synctest bubble: the recorded handshake is presented many times, and the clock its timestamp is held
+		// against must not move while that takes however long a loaded machine needs
+		if dead := core.Bubble(e, func() { sessionTrials(e, i, r, &p) }); dead != "" {
+			rec.Inconclusive("bubble:" + dead)
+		}
 	})
 }
 
